@@ -200,6 +200,14 @@ fn one_mapping(text: &[u8], rng: &mut Rng, rep: &mut Reporter, case_idx: u64, ct
             rep.count("batches_with_a_trace_of_24000_frame_lines", 1);
         }
     }
+    // frames on classes that this mapping may not contain but the next one (parsed at the same
+    // address) may: whatever a process remembers about a file must not outlive the file
+    for _ in 0..40 {
+        let c = *rng.pick(pgvcore::ast::OBF_CLASSES);
+        if !c.is_empty() {
+            batch.push(Q::Line(c.to_string(), rng.pick(pgvcore::ast::OBF_METHODS).to_string(), 1 + rng.below(30), None));
+        }
+    }
     let mut collision_queries: Vec<usize> = vec![];
     if kind == "ast-concat-collisions" {
         for (c, m) in [("k.ab", "c"), ("k.a", "bc"), ("k.a.b", "cd"), ("k.a.bc", "d"), ("k$x", "y"), ("k", "$xy")] {
@@ -213,7 +221,15 @@ fn one_mapping(text: &[u8], rng: &mut Rng, rep: &mut Reporter, case_idx: u64, ct
         batch.push(rng.pick(&hot).clone());
     }
     let bytes = cur::write_cache(text).expect("write to Vec");
-    let buf = AlignedBuf::from_bytes(&bytes);
+    // the first shared cache of every mapping of this process lives at the same address
+    let buf_region: &[u8] = ARENA.with(|a| a.load(&bytes));
+    struct Region<'r>(&'r [u8]);
+    impl Region<'_> {
+        fn as_slice(&self) -> &[u8] {
+            self.0
+        }
+    }
+    let buf = Region(buf_region);
     // sequential answers first, from SEPARATE instances: the shared handles below stay
     // cold (never queried) until the threads are released, so that lazily initialised
     // state inside a handle is first touched concurrently
